@@ -475,8 +475,39 @@ class Builder:
                 env[n] = ("loop", it, before, after, d)
         self.effects.append(("loop", ("loop", it, NONE, ("tuple", body_effects), d), s.lineno))
 
+    @staticmethod
+    def static_dict(n):
+        """(key node, value) pairs, in insertion order, of a dict that is statically known: a display without `**` spreads, possibly
+        followed by item assignments under constant keys (`d["k"] = v` replaces in place or appends, like Python); else None."""
+        if isinstance(n, tuple) and n and n[0] == "dict":
+            if any(k == ("const", "**") or not (isinstance(k, tuple) and k and k[0] == "const") for k, _ in n[1]):
+                return None
+            return list(n[1])
+        if isinstance(n, tuple) and n and n[0] == "setitem":
+            base = Builder.static_dict(n[1])
+            if base is None or not (isinstance(n[2], tuple) and n[2] and n[2][0] == "const"):
+                return None
+            out, done = [], False
+            for k, v in base:
+                if k == n[2]:
+                    out.append((k, n[3]))
+                    done = True
+                else:
+                    out.append((k, v))
+            if not done:
+                out.append((n[2], n[3]))
+            return out
+        return None
+
     def static_elems(self, it):
         """Elements of a statically known iterable, else None."""
+        sd = self.static_dict(it)
+        if sd is not None:
+            return [k for k, _ in sd]
+        if isinstance(it, tuple) and it and it[0] == "call" and isinstance(it[1], tuple) and it[1][0] == "attr" and it[1][2] in ("items", "keys", "values") and not it[2]:
+            sd = self.static_dict(it[1][1])
+            if sd is not None:
+                return {"items": [("tuple", (k, v)) for k, v in sd], "keys": [k for k, _ in sd], "values": [v for _, v in sd]}[it[1][2]]
         if isinstance(it, tuple):
             if it[0] in ("tuple", "list"):
                 if any(isinstance(e, tuple) and e and e[0] == "star" for e in it[1]):
@@ -722,10 +753,17 @@ class Builder:
             if len(parts) == 1:
                 return parts[0]
             return ("boolop", "And", tuple(parts))
-        if isinstance(e, ast.Tuple):
-            return ("tuple", tuple(self.snap(self.ev(x, env, ctx)) for x in e.elts))
-        if isinstance(e, ast.List):
-            return ("list", tuple(self.snap(self.ev(x, env, ctx)) for x in e.elts))
+        if isinstance(e, (ast.Tuple, ast.List)):
+            # `(*xs, a)` with a statically known xs is the spliced display
+            elems = []
+            for x in e.elts:
+                v = self.snap(self.ev(x, env, ctx))
+                if isinstance(v, tuple) and v and v[0] == "star" and isinstance(v[1], tuple) and v[1] and v[1][0] in ("tuple", "list") \
+                        and not any(isinstance(y, tuple) and y and y[0] == "star" for y in v[1][1]):
+                    elems.extend(v[1][1])
+                else:
+                    elems.append(v)
+            return ("tuple" if isinstance(e, ast.Tuple) else "list", tuple(elems))
         if isinstance(e, ast.Set):
             return ("set", tuple(self.ev(x, env, ctx) for x in e.elts))
         if isinstance(e, ast.Dict):
@@ -1086,6 +1124,15 @@ class Builder:
                     return self.mk_ite(args[0], t, fl)
                 if q in SELECT and len(args) == 3 and not kwargs:
                     return self.mk_ite(args[0], args[1], args[2])
+                if q == "jax.numpy.select" and len(args) >= 2:
+                    # select(conds, choices, default): the first condition that holds selects
+                    cs, vs = self.static_elems(args[0]), self.static_elems(args[1])
+                    dflt = args[2] if len(args) > 2 else kw.get("default", ("const", 0))
+                    if cs is not None and vs is not None and len(cs) == len(vs) and not (set(kw) - {"default"}):
+                        out = dflt
+                        for c_, v_ in reversed(list(zip(cs, vs))):
+                            out = self.mk_ite(c_, v_, out)
+                        return out
                 if q in SCAN:
                     names = ["f", "init", "xs", "length", "reverse"]
                     b = dict(zip(names, args))
@@ -1113,6 +1160,11 @@ class Builder:
                     return n
                 if q in ("tuple", "list") and len(args) == 1 and not kwargs and isinstance(args[0], tuple) and args[0][0] in ("tuple", "list"):
                     return (q, args[0][1])
+                if q in ("tuple", "list") and len(args) == 1 and not kwargs and isinstance(args[0], tuple) and args[0] and (
+                        args[0][0] in ("dict", "setitem") or (args[0][0] == "call" and isinstance(args[0][1], tuple) and args[0][1][0] == "attr" and args[0][1][2] in ("items", "keys", "values"))):
+                    el = self.static_elems(args[0])
+                    if el is not None:
+                        return (q, tuple(el))
                 if q == "len" and len(args) == 1 and isinstance(args[0], tuple) and args[0][0] in ("tuple", "list") and not any(
                     isinstance(x, tuple) and x and x[0] == "star" for x in args[0][1]
                 ):
